@@ -403,7 +403,7 @@ class _db_get_timestamps(Contract):
     witness_sig = {"src": ([TInt], TInt), "rank": ([TInt], TInt)}
     ghost_vars = ("gsrc", "grank")
     ghost_init = "gsrc = []; grank = {}"
-    ghost_after = [("rst.append(_time.replace", "gsrc.append(_t); grank[_t] = len(rst) - 1")]
+    ghost_after = [("rst.append(", "gsrc.append(_t); grank[_t] = len(rst) - 1")]
     locals = dict(gsrc=TList(TInt), grank=TDict(TInt, TInt), rst=LDt)
 
     @staticmethod
